@@ -7,14 +7,19 @@ impl<F> PartialWitness<F> {
     /// what fill_public_batch_witness was handed: (proofs, aggregator address felts)
     pub uninterp spec fn pub_filled(&self) -> Option<(Seq<ProofWithPublicInputs<GoldilocksField, PoseidonGoldilocksConfig, 2>>, [GoldilocksField; 4])>;
 }
+/// the witness-filling functions' own refusals (malformed proof shape, a witness conflict): uninterpreted, not under contract
+pub uninterp spec fn pb_fill_refuses(proofs: Seq<ProofWithPublicInputs<GoldilocksField, PoseidonGoldilocksConfig, 2>>, pre: Seq<[GoldilocksField; 4]>) -> bool;
+pub uninterp spec fn pub_fill_refuses(proofs: Seq<ProofWithPublicInputs<GoldilocksField, PoseidonGoldilocksConfig, 2>>, addr: [GoldilocksField; 4]) -> bool;
 /// private_batch/circuit/witness.rs: fills the proof targets and preimage targets slot by slot; may fail on malformed proof shape
 #[verifier::external_body]
 pub fn fill_private_batch_witness(pw: &mut PartialWitness<F>, targets: &PrivateBatchCircuitTargets, proofs: &[ProofWithPublicInputs<F, C, D>], pre: &[[F; 4]]) -> (r: Result<()>)
     ensures r.is_ok() ==> final(pw).pb_filled() == Some((proofs@, pre@)),
+            r.is_err() ==> pb_fill_refuses(proofs@, pre@),
 { unimplemented!() }
 #[verifier::external_body]
 pub fn fill_public_batch_witness(pw: &mut PartialWitness<F>, targets: &PublicBatchCircuitTargets, proofs: &[ProofWithPublicInputs<F, C, D>], addr: [F; 4]) -> (r: Result<()>)
     ensures r.is_ok() ==> final(pw).pub_filled() == Some((proofs@, addr)),
+            r.is_err() ==> pub_fill_refuses(proofs@, addr),
 { unimplemented!() }
 /// rand::thread_rng / SliceRandom::shuffle (TB-7c): the slice becomes the generator's permutation of its old contents. Which permutation
 /// is an uninterpreted function of the generator state, so "the committed order is what rand's shuffle made of the WHOLE padded vector" is
